@@ -151,6 +151,9 @@ where
         let enc = encode(&v);
         let enc2 = encode(&v);
         let with_id = encode(&v.clone().with_instance_id(id));
+        let wid = v.clone().with_instance_id(id);
+        let with_id_by_ref = encode(&&wid);
+        let service_by_ref = Error::service("cause", &wid);
         let text = conjure_serde::json::to_string(&enc).unwrap_or_default();
         let back = conjure_serde::json::client_from_str::<SerializableError>(&text);
         let (rt_equal, rt_text) = match &back {
@@ -167,6 +170,8 @@ where
             "encoded": to_value(&enc),
             "second_instance_id": enc2.error_instance_id().to_string(),
             "with_id": to_value(&with_id),
+            "with_id_by_ref": to_value(&with_id_by_ref),
+            "service_by_ref": params(&service_by_ref),
             "json_roundtrip_equal": rt_equal,
             "json_text": text,
             "json_text_after_roundtrip": rt_text,
